@@ -9,6 +9,9 @@ use crate::corpus;
 use crate::hooks::*;
 use crate::simrun::Obs;
 
+/// Paths that reached an outcome some other path had already reached (reported only).
+static DUPLICATES: std::sync::atomic::AtomicU64 = std::sync::atomic::AtomicU64::new(0);
+
 type ExDriver = bg::driver::object::Object<bg::driver::exhaustive::Driver>;
 
 fn new_exhaustive() -> ExDriver {
@@ -116,8 +119,8 @@ fn hook_case(kind: Kind, init: &[Lane], ticks: usize, force: bool, st: &mut Stat
     for s in reached.keys() {
         st.outcome(&(kind, init, s));
     }
-    let dup: u64 = reached.values().map(|c| c - 1).sum();
-    st.traces += dup; // duplicated explorations: reported, not required absent
+    let dup: u64 = reached.values().map(|c| c - 1).sum(); // duplicated explorations: reported, not required absent
+    DUPLICATES.fetch_add(dup, std::sync::atomic::Ordering::Relaxed);
     let case = json!({"section": "hooks", "kind": kind.name(), "init": init.iter().map(|(a, b)| vec![*a, *b]).collect::<Vec<_>>(), "ticks": ticks, "force": force});
     if let Some(f) = failure {
         st.violation(format!("C37/hook/{}/failure", kind.name()), format!("{} {init:?}: {f}", kind.name()), case.clone());
@@ -159,7 +162,7 @@ fn inline_case(kind: InlineKind, items: &[Lane], st: &mut Stats) {
     for s in reached.keys() {
         st.outcome(&(kind, items, s));
     }
-    st.traces += reached.values().map(|c| c - 1).sum::<u64>();
+    DUPLICATES.fetch_add(reached.values().map(|c| c - 1).sum::<u64>(), std::sync::atomic::Ordering::Relaxed);
     let case = json!({"section": "inline", "kind": kind.name(), "items": items.iter().map(|(a, b)| vec![*a, *b]).collect::<Vec<_>>()});
     if let Some(f) = failure {
         st.violation(format!("C37/inline/{}/failure", kind.name()), format!("{} {items:?}: {f}", kind.name()), case.clone());
@@ -186,7 +189,11 @@ fn hook_level(thorough: bool) -> Stats {
         for init in combi::sequences_upto(&lanes, max) {
             for ticks in 1..=max_ticks {
                 for force in [false, true] {
-                    // the largest queues with 3 unforced ticks of the subset hooks are the expensive corner
+                    // top-level hooks are one observation each and therefore always forced by the
+                    // scheduler; their unforced behaviour is not part of any schedule
+                    if kind.top_level() && !force {
+                        continue;
+                    }
                     cases.push((kind, init.clone(), ticks, force));
                 }
             }
@@ -352,7 +359,7 @@ fn program_case(name: &str, n: usize, with_expected: bool) -> Stats {
     for o in reached.keys() {
         st.outcome(&(name, o));
     }
-    st.traces += reached.values().map(|c| c - 1).sum::<u64>();
+    DUPLICATES.fetch_add(reached.values().map(|c| c - 1).sum::<u64>(), std::sync::atomic::Ordering::Relaxed);
     println!("  program {name} (n={n}): exhaustive() ran {instances} instances -> {} distinct outcomes; own DFS {} executions -> {} distinct outcomes", reached.len(), es.executions, dfs.len());
     let case = |extra: Value| json!({"section": "programs", "program": name, "n": n, "detail": extra});
     if !es.capped
@@ -421,7 +428,8 @@ pub fn run(rep: &mut Report) {
     rep.bound("keys", 2);
     let t = std::time::Instant::now();
     let s = hook_level(thorough);
-    println!("  hook level: {} cases, {} driver paths, {} duplicate paths, {:.1}s", s.evaluations, s.transitions, s.traces, t.elapsed().as_secs_f64());
+    println!("  hook level: {} cases, {} driver paths, {} duplicate paths, {:.1}s", s.evaluations, s.transitions, DUPLICATES.load(std::sync::atomic::Ordering::Relaxed), t.elapsed().as_secs_f64());
+    rep.bound("hook_level_duplicate_paths_reported", DUPLICATES.load(std::sync::atomic::Ordering::Relaxed));
     rep.section("hook_level", s);
     let t = std::time::Instant::now();
     let mut names: Vec<(&str, bool)> = C37_PROGRAMS.iter().map(|n| (*n, true)).collect();
